@@ -160,11 +160,13 @@ pub fn exec(case: &Value) -> Vec<Value> {
             let (out2, _) = run(&text).unwrap_or_default();
             let (out3, _) = run_in(&text, true).unwrap_or_default();
             // labels of the whitespace-correction task for (corrupted input, original target)
+            // 0-2 prefix tokens and 0-1 suffix tokens, by seed: the labels of the characters sit between as many -1
+            let (npfx, nsfx) = ((seed % 3) as usize, ((seed / 3) % 2) as usize);
             let tok_cfg = TokenizerConfig {
                 tokenize: TokenizeConfig::Byte(ByteTokenizerConfig { use_graphemes: g, pad_to_multiple_of: None,
                     groups: ByteGroups::Bytes, aggregation: GroupAggregation::Mean }),
                 special: SpecialConfig { pad: "<pad>".into(), tokens: vec!["<pad>".into(), "<bos>".into(), "<eos>".into()],
-                    prefix: vec!["<bos>".into()], suffix: vec!["<eos>".into()] },
+                    prefix: vec!["<bos>".to_string(); npfx], suffix: vec!["<eos>".to_string(); nsfx] },
             };
             let labels: Value = match guard(|| {
                 let task = train_task(TrainTaskConfig::WhitespaceCorrection(g, tok_cfg));
@@ -184,7 +186,7 @@ pub fn exec(case: &Value) -> Vec<Value> {
             let cls = |p: f64| if p <= 0.0 { "zero" } else if p >= 1.0 { "one" } else { "mid" };
             json!({"kind": "corrupt", "g": g, "fusable": fusable, "text": text, "tv": cp.view(&text, g), "ov": cp.view(&out, g),
                    "out": out, "same_again": out == out2 && out == out3, "target_cps": cp.cps(&tgt), "text_cps": cp.cps(&text),
-                   "iw": cls(iw), "dw": cls(dw), "seed": seed, "task": labels, "nbytes": out.len()})
+                   "iw": cls(iw), "dw": cls(dw), "seed": seed, "task": labels, "npfx": npfx, "nsfx": nsfx, "nbytes": out.len()})
         }
     };
     let mut rec = rec;
